@@ -40,10 +40,15 @@ type jIT struct {
 	Name string `json:"name"`
 	Offs []jOff `json:"offerings"`
 }
+type jRID struct {
+	Op   string   `json:"op"` // In | NotIn | Exists
+	Vals []string `json:"values,omitempty"`
+}
 type jReq struct {
 	Zones []string `json:"zones,omitempty"`
 	CTs   []string `json:"capacity_types,omitempty"`
 	ITs   []string `json:"instance_types,omitempty"`
+	RID   *jRID    `json:"reservation_id,omitempty"`
 }
 type jTpl struct {
 	Pool string `json:"pool"`
@@ -56,8 +61,50 @@ var ridsU = []string{"r1", "r2", "r3", "r4"}
 var itsU = []string{"i1", "i2", "i3", "i4"}
 
 func gOptList(l []string) string { return kit.GOpt(l != nil, kit.GStrs(l)) }
+func gRID(r *jRID) string {
+	switch {
+	case r == nil:
+		return "RAny"
+	case r.Op == "In":
+		return "(RIn " + kit.GStrs(r.Vals) + ")"
+	case r.Op == "NotIn":
+		return "(RNotIn " + kit.GStrs(r.Vals) + ")"
+	}
+	return "(RNotIn [])" // Exists
+}
 func gReq(q jReq) string {
-	return fmt.Sprintf("(mkF %s %s %s)", gOptList(q.Zones), gOptList(q.CTs), gOptList(q.ITs))
+	return fmt.Sprintf("(mkF %s %s %s %s)", gOptList(q.Zones), gOptList(q.CTs), gOptList(q.ITs), gRID(q.RID))
+}
+
+// genRID draws an explicit reservation-id requirement as a pod or NodePool may carry it.
+func genRID(r *kit.Rand) *jRID {
+	switch r.Intn(6) {
+	case 0:
+		return &jRID{Op: "Exists"}
+	case 1:
+		return &jRID{Op: "NotIn", Vals: subset(r, ridsU, 1)}
+	case 2:
+		return &jRID{Op: "In", Vals: []string{kit.Pick(r, ridsU)}}
+	default:
+		return &jRID{Op: "In", Vals: subset(r, ridsU, 2)}
+	}
+}
+
+// admitted returns the catalogue's reservation ids that the requirement admits (sorted).
+func admitted(req *scheduling.Requirement, tpls []jTpl) []string {
+	out := []string{}
+	present := map[string]bool{}
+	for _, o := range allOffs(tpls) {
+		if o.CT == "reserved" {
+			present[o.RID] = true
+		}
+	}
+	for _, id := range ridsU {
+		if present[id] && req.Has(id) {
+			out = append(out, id)
+		}
+	}
+	return out
 }
 func gOff(o jOff) string {
 	return fmt.Sprintf("(mkO %s %s %s %s %s)", kit.GStr(o.CT), kit.GStr(o.Zone), kit.GStr(o.RID), kit.GBool(o.Avail), kit.GZ(int64(o.Cap)))
@@ -96,6 +143,9 @@ func genReq(r *kit.Rand, tight bool) jReq {
 	}
 	if r.Chance(1, p+2) {
 		q.ITs = subset(r, itsU, 1)
+	}
+	if r.Chance(1, 5) {
+		q.RID = genRID(r)
 	}
 	return q
 }
@@ -201,6 +251,9 @@ func reqSelectors(q jReq) []corev1.NodeSelectorRequirement {
 	}
 	if q.ITs != nil {
 		out = append(out, nsr(corev1.LabelInstanceTypeStable, q.ITs))
+	}
+	if q.RID != nil {
+		out = append(out, corev1.NodeSelectorRequirement{Key: v1alpha1.LabelReservationID, Operator: corev1.NodeSelectorOperator(q.RID.Op), Values: q.RID.Vals})
 	}
 	return out
 }
@@ -317,6 +370,7 @@ func runN(c *kit.Ctx, r *kit.Rand, idx int) {
 	rm := sched.NewReservationManager(itMap)
 
 	var claims []*sched.NodeClaim
+	userRID := map[int]bool{}
 	hostIdx := map[string]string{}
 	rename := func(h string) string {
 		if n, ok := hostIdx[h]; ok {
@@ -372,6 +426,13 @@ func runN(c *kit.Ctx, r *kit.Rand, idx int) {
 				if op.New != nil {
 					hostIdx[nc.VerifC17Hostname()] = op.Claim
 					claims = append(claims, nc)
+					if tpls[*op.New].Req.RID != nil {
+						userRID[k] = true
+					}
+				}
+				if op.Pod.RID != nil {
+					userRID[k] = true
+					c.Count("N:placed:pod-with-explicit-reservation-id-requirement")
 				}
 				ids := lo.Map(ofs, func(o *cloudprovider.Offering, _ int) string { return o.ReservationID() })
 				if ids == nil {
@@ -437,10 +498,18 @@ func runN(c *kit.Ctx, r *kit.Rand, idx int) {
 		nc.FinalizeScheduling()
 		pinned := nc.Requirements.Has(v1alpha1.LabelReservationID)
 		var ids []string
-		if pinned {
-			ids = sortedCopy(nc.Requirements.Get(v1alpha1.LabelReservationID).Values())
+		_, heldNow := rm.VerifC17Snapshot()
+		switch {
+		case pinned && len(heldNow[nc.VerifC17Hostname()]) > 0:
+			ids = admitted(nc.Requirements.Get(v1alpha1.LabelReservationID), tpls)
 			c.Count("N:final:pinned")
-		} else {
+			if userRID[k] {
+				c.Count("N:final:pinned-under-an-explicit-reservation-id-requirement")
+			}
+		case pinned:
+			ids = admitted(nc.Requirements.Get(v1alpha1.LabelReservationID), tpls)
+			c.Count("N:final:explicit-reservation-id-requirement-but-holds-none")
+		default:
 			c.Count("N:final:not-pinned")
 		}
 		ct := nc.Requirements.Get(v1.CapacityTypeLabelKey)
